@@ -13,6 +13,8 @@ CONFIGS = {
     "set-set-dup": dict(modes=("set", "set"), nmsg=(2, 1), adversary=("dup",)),
     "set-set-wrongcode": dict(modes=("set", "set"), wrong_code=True),
     "set-set-deferred": dict(modes=("set", "set"), delegated=(False, False)),
+    # the Deferred API used with nested callbacks (get_versions()/get_message() asked for from inside the key callback, the verifier up front)
+    "set-set-deferred-nested": dict(modes=("set", "set"), delegated=(False, False), auto_get="nested"),
     "alloc-set-deferred-getters": dict(modes=("allocate", "set"), delegated=(False, False), auto_get=False, getters=True),
     "set-set-srverror": dict(modes=("set", "set"), adversary=("srv_error",)),
     # an internal error (a non-hex message body makes the receive path raise, RendezvousConnector reports it to Boss.error) at any point,
